@@ -6,6 +6,7 @@ import (
 	"go/token"
 	"go/types"
 	"sort"
+	"strings"
 
 	"golang.org/x/tools/go/cfg"
 
@@ -554,6 +555,182 @@ func ruleResetBeforeTerminal() check.Rule {
 	}
 }
 
+// RESET-RELEASES: "unsubscribes when the last one leaves".
+func ruleResetReleases() check.Rule {
+	return check.Rule{
+		Name: "RESET-RELEASES",
+		Doc:  "Share's reset closure unsubscribes the connection's upstream subscription on every path; the teardown reaches a call of it inside the reference-count-zero branch; the has-been-reset flags are cleared when a new connection is created; the connectable observable registers a teardown on the connection that (when configured) installs a fresh subject",
+		Run: func(c *check.Ctx) {
+			m := c.M
+			sc, app := shareApp(m)
+			if sc == nil {
+				c.Undecided("ro.ShareWithConfig/anchor", m.Obj.Ro.Syntax[0].Pos(), "ShareWithConfig not found")
+				return
+			}
+			p := sc.Pkg
+			info := p.TypesInfo
+			locals := directLocals(info, app)
+			// the reset-like closure(s): assign nil to application-level variables
+			var resetVar types.Object
+			var resetLit *ast.FuncLit
+			for v := range locals {
+				for _, d := range m.Defs[v] {
+					lit, isLit := ast.Unparen(d.Expr).(*ast.FuncLit)
+					if d.Expr == nil || !isLit {
+						continue
+					}
+					ast.Inspect(lit.Body, func(x ast.Node) bool {
+						as, ok := x.(*ast.AssignStmt)
+						if !ok || len(as.Lhs) != len(as.Rhs) {
+							return true
+						}
+						for i, l := range as.Lhs {
+							lid, ok1 := ast.Unparen(l).(*ast.Ident)
+							rid, ok2 := ast.Unparen(as.Rhs[i]).(*ast.Ident)
+							if ok1 && ok2 {
+								if wv, isVar := objOf(info, lid).(*types.Var); isVar && locals[wv] {
+									if _, isNil := info.Uses[rid].(*types.Nil); isNil {
+										resetVar, resetLit = v, lit
+									}
+								}
+							}
+						}
+						return true
+					})
+				}
+			}
+			if resetLit == nil {
+				c.Violation("ro.ShareWithConfig/reset", app.Pos(), "no closure that resets the connection (assigns nil to the connection variables) was found")
+				return
+			}
+			// (1) reset unsubscribes a Subscription parameter on every path
+			var unsub *ast.CallExpr
+			params := map[types.Object]bool{}
+			for _, pv := range model.FlattenParams(info, resetLit.Type.Params) {
+				if pv != nil {
+					params[pv] = true
+				}
+			}
+			ast.Inspect(resetLit.Body, func(x ast.Node) bool {
+				call, ok := x.(*ast.CallExpr)
+				if !ok {
+					return true
+				}
+				if name, isSub := m.Obj.SubscriptionMethods[model.Callee(info, call)]; isSub && name == "Unsubscribe" {
+					if sel, ok := ast.Unparen(call.Fun).(*ast.SelectorExpr); ok {
+						if id, ok := ast.Unparen(sel.X).(*ast.Ident); ok && params[objOf(info, id)] {
+							unsub = call
+						}
+					}
+				}
+				return true
+			})
+			if unsub != nil && mustPass(resetLit.Body, unsub) {
+				c.OK("ro.ShareWithConfig/reset-unsubscribes", resetLit.Pos(), "reset unsubscribes the connection's upstream subscription on every path")
+			} else {
+				c.Violation("ro.ShareWithConfig/reset-unsubscribes", resetLit.Pos(), "the reset closure does not unsubscribe the connection's upstream subscription on every path: the source stays subscribed after the last subscriber has left / after a reset")
+			}
+			// (2) the teardown calls reset inside a branch that tests refCount == 0
+			okTd := false
+			for _, tr := range sc.Teardowns {
+				if tr.Val == nil || tr.Val.Lit == nil {
+					continue
+				}
+				ast.Inspect(tr.Val.Lit.Body, func(x ast.Node) bool {
+					call, ok := x.(*ast.CallExpr)
+					if !ok {
+						return true
+					}
+					if id, ok := ast.Unparen(call.Fun).(*ast.Ident); ok && objOf(info, id) == resetVar {
+						zero := func(cond ast.Expr, polarity bool) bool {
+							found := false
+							ast.Inspect(cond, func(y ast.Node) bool {
+								if be, ok := y.(*ast.BinaryExpr); ok && be.Op == token.EQL {
+									if rid, ok := ast.Unparen(be.X).(*ast.Ident); ok && rid.Name == "refCount" && constIs(info, be.Y, 0) {
+										found = true
+									}
+								}
+								return !found
+							})
+							return found && polarity
+						}
+						if guardedByEdge(tr.Val.Lit.Body, call, zero) {
+							okTd = true
+						}
+					}
+					return true
+				})
+			}
+			if okTd {
+				c.OK("ro.ShareWithConfig/teardown-resets-at-zero", sc.Lit.Pos(), "the teardown calls reset in the reference-count-zero branch")
+			} else {
+				c.Violation("ro.ShareWithConfig/teardown-resets-at-zero", sc.Lit.Pos(), "the teardown never calls the reset closure under the refCount == 0 test: the source is not unsubscribed when the last subscriber leaves")
+			}
+			// (3) flags cleared on a new connection: every atomic flag stored with 1 in the proxy slots is stored with 0 in the subscribe body
+			set1, set0 := map[types.Object]bool{}, map[types.Object]bool{}
+			ast.Inspect(sc.Lit.Body, func(x ast.Node) bool {
+				call, ok := x.(*ast.CallExpr)
+				if !ok || len(call.Args) != 2 {
+					return true
+				}
+				if cl := model.Callee(info, call); cl != nil && cl.Pkg() != nil && cl.Pkg().Path() == "sync/atomic" && strings.HasPrefix(cl.Name(), "Store") {
+					if id, _ := rootIdent(call.Args[0]); id != nil {
+						if v, ok := constVal(info, call.Args[1]); ok {
+							if v == 0 {
+								set0[objOf(info, id)] = true
+							} else {
+								set1[objOf(info, id)] = true
+							}
+						}
+					}
+				}
+				return true
+			})
+			for o := range set1 {
+				key := "ro.ShareWithConfig/flag-" + o.Name() + "-cleared"
+				if set0[o] {
+					c.OK(key, o.Pos(), "the flag is cleared when a new connection is created")
+				} else {
+					c.Violation(key, o.Pos(), "flag %s is set when the source terminates but never cleared for a new connection: after one terminated execution the reference-count-zero reset is disabled for ever", o.Name())
+				}
+			}
+			c.Inc("share_reset_checks", 2+len(set1))
+			// (4) connectable: a teardown is registered on the connection
+			if fd := load.FuncDeclOf(m.Obj.Ro, "connectableObservableImpl.ConnectWithContext"); fd != nil && fd.Body != nil {
+				rinfo := m.Obj.Ro.TypesInfo
+				rv := recvObj(rinfo, fd)
+				okAdd := false
+				ast.Inspect(fd.Body, func(x ast.Node) bool {
+					call, ok := x.(*ast.CallExpr)
+					if !ok || len(call.Args) != 1 {
+						return true
+					}
+					if name, isSub := m.Obj.SubscriptionMethods[model.Callee(rinfo, call)]; isSub && name == "Add" {
+						if lit, ok := ast.Unparen(call.Args[0]).(*ast.FuncLit); ok {
+							ast.Inspect(lit.Body, func(y ast.Node) bool {
+								if as, ok := y.(*ast.AssignStmt); ok {
+									for _, l := range as.Lhs {
+										if fs := fieldSelOf(rinfo, l, rv); fs != nil && fs.Sel.Name == "subject" {
+											okAdd = true
+										}
+									}
+								}
+								return true
+							})
+						}
+					}
+					return true
+				})
+				if okAdd {
+					c.OK("ro.connectableObservableImpl.ConnectWithContext/reset-on-disconnect", fd.Pos(), "a teardown that installs a fresh subject is registered on the connection")
+				} else {
+					c.Violation("ro.connectableObservableImpl.ConnectWithContext/reset-on-disconnect", fd.Pos(), "no teardown that installs a fresh subject is registered on the connection: ResetOnDisconnect has no effect and a re-connection replays into the old subject")
+				}
+			}
+		},
+	}
+}
+
 // CONNECTABLE-GUARDED
 func ruleConnectableGuarded() check.Rule {
 	return check.Rule{
@@ -655,13 +832,13 @@ func C11() *check.Property {
 		Title:    "Sharing keeps one upstream subscription and follows the reference count",
 		Patterns: CorePatterns,
 		Scope:    []string{ro},
-		Rules:    []check.Rule{ruleShareGuarded(), ruleSingleConnect(), ruleRefcountPairing(), ruleResetBeforeTerminal(), ruleConnectableGuarded(), ruleShareReplayConfig()},
+		Rules:    []check.Rule{ruleShareGuarded(), ruleSingleConnect(), ruleRefcountPairing(), ruleResetBeforeTerminal(), ruleResetReleases(), ruleConnectableGuarded(), ruleShareReplayConfig()},
 		Explanation: "Structural clauses only; event histories are NOT decided. The discipline that makes 'at most one live upstream subscription' true is checked: Share's connection state (subject, upstream subscription, reference count) is only touched under its mutex, " +
 			"with the 'requires lock' closures inferred from their call sites (lock-set data-flow); the upstream subscribe site is confined to the path on which a new subject was installed; the reference count is incremented/decremented exactly once per subscription/unsubscription under the mutex " +
 			"and the zero test follows the decrement in the same region; the connectable observable subscribes its source under its mutex only when no live connection exists, and its mutable fields are guarded; ShareReplay's configuration is what its name says.",
 		NotDecided:  "the behaviour over sequences of subscribe/unsubscribe/notification/connect events (reset options, replay contents); that 'join the running execution' delivers the same notifications to all subscribers (follows from the subject rules of C10).",
 		Assumptions: []string{"sync.Mutex semantics", "subjects honour C10"},
-		Floors:      map[string]int{"share_variables": 3, "connect_sites": 2, "refcount_ops": 2, "field_accesses": 8, "share_terminal_slots": 2},
+		Floors:      map[string]int{"share_variables": 3, "connect_sites": 2, "refcount_ops": 2, "field_accesses": 8, "share_terminal_slots": 2, "share_reset_checks": 4},
 	}
 }
 
